@@ -20,10 +20,10 @@ type C03Attempt struct {
 	// arrives (k>0); -1 / absent field value 0 with Cancel=false = never
 	Cancel   bool       `json:"cancel,omitempty"`
 	CancelAt int        `json:"cancel_at,omitempty"`
-	Fates []env.Fate `json:"fates,omitempty"` // by arrival index; missing = plain completion
+	Fates    []env.Fate `json:"fates,omitempty"` // by arrival index; missing = plain completion
 	// FailAbove > 0: the store rejects a call that arrives while more than this many calls are in flight
-	FailAbove int `json:"fail_above,omitempty"`
-	Ops   []core.Op  `json:"ops,omitempty"`   // operations applied after this attempt (the tree must stay usable)
+	FailAbove int       `json:"fail_above,omitempty"`
+	Ops       []core.Op `json:"ops,omitempty"` // operations applied after this attempt (the tree must stay usable)
 }
 
 type C03Case struct {
@@ -31,10 +31,10 @@ type C03Case struct {
 	// more than the 40 writes the flush keeps in flight)
 	Big       int          `json:"big,omitempty"`
 	Cfg       core.Config  `json:"cfg"`
-	Base      []core.Op    `json:"base"`            // history (may persist/reload: creates a clean region)
-	Attempts  []C03Attempt `json:"attempts"`        // successive MakeRoot calls under fate plans; a final fault-free attempt is always added
-	Singles   bool         `json:"singles"`         // additionally enumerate every single failing arrival position of the first attempt
-	TwoStores bool         `json:"two_stores"`      // afterwards persist the same contents into a second store (different prefix) sharing the cache
+	Base      []core.Op    `json:"base"`       // history (may persist/reload: creates a clean region)
+	Attempts  []C03Attempt `json:"attempts"`   // successive MakeRoot calls under fate plans; a final fault-free attempt is always added
+	Singles   bool         `json:"singles"`    // additionally enumerate every single failing arrival position of the first attempt
+	TwoStores bool         `json:"two_stores"` // afterwards persist the same contents into a second store (different prefix) sharing the cache
 }
 
 var c03Weights = core.OpWeights{
@@ -325,7 +325,11 @@ func runC03(c C03Case, o *run.Obs) error {
 		// same contents into a second store with another prefix, through the same cache
 		storeB := env.NewRecStore("mem://other-container")
 		var mb *mast.Mast
-		if err := core.Safely("LoadMast", func() error { var e error; mb, e = w.NewRoot().LoadMast(core.Ctx, w.RemoteConfig(storeB, w.Cache)); return e }); err == nil {
+		if err := core.Safely("LoadMast", func() error {
+			var e error
+			mb, e = w.NewRoot().LoadMast(core.Ctx, w.RemoteConfig(storeB, w.Cache))
+			return e
+		}); err == nil {
 			tb := &core.Tree{M: mb, Model: core.Model{}}
 			okB := true
 			for _, ki := range cw.t.Model.Keys() {
